@@ -721,3 +721,57 @@ pub fn gen_fk_chain_sets() -> Vec<Vec<TableDef>> {
     }
     out.into_iter().filter_map(|m| normalized_slice(&m).filter(|n| gener::loader_accepts(n))).collect()
 }
+
+// ------------------------------------------------------------------ systematic column defaults (C17)
+/// Default strings for every branch of the default handling of the three exporters: function calls, bare
+/// expressions, booleans, numbers in every f64 spelling, quoted literals — among them quoted literals that contain
+/// `(` / `)` / both (a call-looking text inside a string) — and unquoted text.
+pub const DEFAULT_SHAPES: &[&str] = &[
+    "now()", "gen_random_uuid()", "CURRENT_TIMESTAMP", "(1)", "abs(-1)", "nextval('seq')",
+    "'N/A (legacy)'", "'(none)'", "'open ('", "'close )'", "')('", "\"x (y)\"", "\"(\"", "'a' || lower('B')",
+    "'x'", "''", "'two words'", "\"dq\"", "'it''s'",
+    "true", "false", "TRUE", "False",
+    "0", "42", "-7", "+3", "1.5", ".5", "5.", "1e3", "1E-2", "-2.5e+10", "inf", "-inf", "Infinity", "NaN", "nan", "1e", "e5", ".", "1.2.3", "0x10", "1_000",
+    "null", "NULL", "plain", "two words", "a+b", "-", "+",
+];
+
+/// For every default shape `d`: a table where `d` is the only default; a table where it sits next to a `now()`
+/// column; one where it sits next to a `CURRENT_TIMESTAMP` column.  Also the typed spellings (bool / integer /
+/// float defaults).  Deterministic.
+pub fn gen_default_sets() -> Vec<Vec<TableDef>> {
+    let text = || ColumnType::Simple(SimpleColumnType::Text);
+    let ts = || ColumnType::Simple(SimpleColumnType::Timestamp);
+    let mut out = vec![];
+    for (i, d) in DEFAULT_SHAPES.iter().enumerate() {
+        let mut set = vec![];
+        for (k, neighbour) in [None, Some("now()"), Some("CURRENT_TIMESTAMP")].iter().enumerate() {
+            let mut t = base_table(format!("dflt{}_{}", i, k));
+            let mut c = col("v", text(), false);
+            c.default = Some(DefaultValue::String(d.to_string()));
+            t.columns.push(c);
+            if let Some(n) = neighbour {
+                let mut c2 = col("at", ts(), false);
+                c2.default = Some(DefaultValue::String(n.to_string()));
+                t.columns.push(c2);
+            }
+            set.push(t);
+        }
+        out.push(set);
+    }
+    let mut typed = base_table("dflt_typed".into());
+    for (n, ty, d) in [
+        ("b1", ColumnType::Simple(SimpleColumnType::Boolean), DefaultValue::Bool(true)),
+        ("b0", ColumnType::Simple(SimpleColumnType::Boolean), DefaultValue::Bool(false)),
+        ("i", int(), DefaultValue::Integer(-5)),
+        ("f", ColumnType::Simple(SimpleColumnType::DoublePrecision), DefaultValue::Float(2.5)),
+        ("big", ColumnType::Simple(SimpleColumnType::DoublePrecision), DefaultValue::Float(1e21)),
+        ("fi", ColumnType::Simple(SimpleColumnType::DoublePrecision), DefaultValue::Float(f64::INFINITY)),
+        ("fn_", ColumnType::Simple(SimpleColumnType::DoublePrecision), DefaultValue::Float(f64::NAN)),
+    ] {
+        let mut c = col(n, ty, false);
+        c.default = Some(d);
+        typed.columns.push(c);
+    }
+    out.push(vec![typed]);
+    out.into_iter().filter_map(|m| normalized_slice(&m).filter(|n| gener::loader_accepts(n))).collect()
+}
